@@ -219,7 +219,10 @@ class MapOverlap(ArrayExpr):
 
     @functools.cached_property
     def shape(self):
-        # Output shape = input shape (no new_axis/drop_axis in this expr)
+        # Output shape = input shape (no new_axis/drop_axis in this expr),
+        # unless the halos are kept (trim=False).
+        if not self.trim_output:
+            return tuple(sum(c) for c in self.chunks)
         return self._get_primary_array().shape
 
     @functools.cached_property
@@ -234,10 +237,30 @@ class MapOverlap(ArrayExpr):
         primary = self._get_primary_array()
         primary_idx = self._get_primary_index()
         if self.allow_rechunk:
-            return _get_overlap_rechunked_chunks(
+            chunks = _get_overlap_rechunked_chunks(
                 new_collection(primary), self.depth[primary_idx], self.boundary[primary_idx]
             )
-        return primary.chunks
+        else:
+            chunks = primary.chunks
+        if not self.trim_output:
+            # trim=False keeps every block's halo: advertise the blocks the graph
+            # produces (interior sides always carry the neighbour's strip, array
+            # edges only when a boundary is added).
+            depth, boundary = self.depth[primary_idx], self.boundary[primary_idx]
+            out = []
+            for axis, bds in enumerate(chunks):
+                d = depth.get(axis, 0)
+                lo, hi = d if isinstance(d, tuple) else (d, d)
+                edge = boundary.get(axis, "none") != "none"
+                last = len(bds) - 1
+                out.append(
+                    tuple(
+                        bd + (lo if (i > 0 or edge) else 0) + (hi if (i < last or edge) else 0)
+                        for i, bd in enumerate(bds)
+                    )
+                )
+            chunks = tuple(out)
+        return chunks
 
     @functools.cached_property
     def _name(self) -> str:
